@@ -90,3 +90,93 @@ pub fn run_stream(line: &str) -> String {
         Err(p) => format!("PANIC {}", panic_msg(p)),
     }
 }
+
+fn state_str(st: &miden_processor::VmState) -> String {
+    let stack: Vec<String> = st.stack.iter().map(|f| f.as_int().to_string()).collect();
+    let mem: Vec<String> = st
+        .memory
+        .iter()
+        .filter(|(_, w)| w.iter().any(|x| x.as_int() != 0))
+        .map(|(a, w)| format!("{a}={},{},{},{}", w[0].as_int(), w[1].as_int(), w[2].as_int(), w[3].as_int()))
+        .collect();
+    format!("{}:{}:{}:{}:{}", st.clk, u32::from(st.ctx), st.fmp.as_int(), stack.join(","), mem.join(";"))
+}
+
+/// `iter` family: step-through with VmStateIterator.  Case: same as `exec` (+ optional 5th field: walk seed).
+/// Output: OK n=<number of states> walk=<ok|MISMATCH..> err=<final error or none> | state | state ...
+pub fn run_iter(line: &str) -> String {
+    let res = catch_unwind(AssertUnwindSafe(|| {
+        let parts: Vec<&str> = line.split('|').collect();
+        let mut pt = Toks::new(parts[3]);
+        let pp = parse_program(&mut pt);
+        let mut stack: Vec<u64> = parts[1].split_whitespace().map(|t| parse_val(t, &pp.hashes)).collect();
+        stack.reverse();
+        let adv: Vec<u64> = parts[2].split_whitespace().map(|t| parse_val(t, &pp.hashes)).collect();
+        let stack_inputs = StackInputs::try_from_values(stack).unwrap();
+        let advice_inputs = AdviceInputs::default().with_stack_values(adv).unwrap();
+        let host = DefaultHost::new(MemAdviceProvider::from(advice_inputs));
+        let mut it = miden_processor::execute_iter(&pp.program, stack_inputs, host);
+        let mut states: Vec<String> = Vec::new();
+        let mut err = "none".to_string();
+        loop {
+            match it.next() {
+                Some(Ok(st)) => states.push(state_str(&st)),
+                Some(Err(e)) => {
+                    err = err_string(&e).replace(' ', "_");
+                    break;
+                }
+                None => break,
+            }
+        }
+        // pseudo-random walk back and forth; every revisited clock must give the first-visit state
+        let mut seed: u64 = parts.get(4).and_then(|s| s.trim().parse().ok()).unwrap_or(12345);
+        let mut walk = "ok".to_string();
+        let mut steps = 0;
+        while steps < 300 && walk == "ok" {
+            seed = seed.wrapping_mul(6364136223846793005).wrapping_add(1442695040888963407);
+            let back = (seed >> 33) % 3 != 0;
+            let r = if back { it.back() } else { it.next().and_then(|x| x.ok()) };
+            if let Some(st) = r {
+                let s = state_str(&st);
+                let k = st.clk as usize;
+                if k >= states.len() || states[k] != s {
+                    walk = format!("MISMATCH_at_clk_{}_{}", k, if back { "back" } else { "next" });
+                }
+            }
+            steps += 1;
+        }
+        format!("OK n={} walk={} err={} | {}", states.len(), walk, err, states.join(" | "))
+    }));
+    match res {
+        Ok(s) => s,
+        Err(p) => format!("PANIC {}", panic_msg(p)),
+    }
+}
+
+/// `tracehash` family: a fingerprint of the whole main trace (all columns, all rows but the last,
+/// which is random).  Case: same as `exec`.
+pub fn run_tracehash(line: &str) -> String {
+    let res = catch_unwind(AssertUnwindSafe(|| {
+        let (trace, _pp) = match execute_case(line) {
+            Ok(x) => x,
+            Err(e) => return e,
+        };
+        let len = trace.get_trace_len();
+        let width = trace.main_segment().num_cols();
+        let mut h: u64 = 0xcbf29ce484222325;
+        for c in 0..width {
+            for v in trace.main_segment().get_column(c)[..len - 1].iter() {
+                for b in v.as_int().to_le_bytes() {
+                    h ^= b as u64;
+                    h = h.wrapping_mul(0x100000001b3);
+                }
+            }
+        }
+        let so: Vec<String> = trace.stack_outputs().stack().iter().map(|x| x.to_string()).collect();
+        format!("OK len={} width={} h={} out={}", len, width, h, so.join(","))
+    }));
+    match res {
+        Ok(s) => s,
+        Err(p) => format!("PANIC {}", panic_msg(p)),
+    }
+}
